@@ -201,7 +201,7 @@ def _clear(it, c, a):
 
 @model('Vec::insert')
 def _insert(it, c, a):
-    xs = deref(a[0]).items; i = cint(it, a[1], 'Vec::insert index')
+    xs = deref(a[0]).items; i = cint(it, a[1], 'Vec::insert index', fork=True)
     if i > len(xs):
         raise Panic('vec-insert-oob', 'insertion index (is %d) should be <= len (is %d)' % (i, len(xs)), it.stack)
     xs.insert(i, a[2]); return UNIT
